@@ -16,6 +16,7 @@ pub mod c07;
 pub mod c08;
 pub mod c09;
 pub mod c10;
+pub mod c11;
 pub mod c12;
 pub mod c13;
 pub mod c14;
@@ -39,6 +40,7 @@ pub fn check(prop: &str, tier: Tier) -> i32 {
 		"C08" => c08::check(tier),
 		"C09" => c09::check(tier),
 		"C10" => c10::check(tier),
+		"C11" => c11::check(tier),
 		"C12" => c12::check(tier),
 		"C13" => c13::check(tier),
 		"C14" => c14::check(tier),
@@ -77,6 +79,7 @@ pub fn replay(prop: &str, file: &str) -> i32 {
 		"C08" => c08::replay(&r),
 		"C09" => c09::replay(&r),
 		"C10" => c10::replay(&r),
+		"C11" => c11::replay(&r),
 		"C12" => c12::replay(&r),
 		"C13" => c13::replay(&r),
 		"C14" => c14::replay(&r),
